@@ -199,4 +199,39 @@ func Balance returns (err)
   ensures @log-unreadable [C10] err == nil ==> !RdFailed(lrd)
   ensures @log-malformed [C09] err == nil ==> (forall i int :: {RdLine(lrd, i)} 0 <= i && i < RdN(lrd) ==> !Malformed(lrd, i, cc))
   ensures @reports-loss [C17] err == nil ==> (sinkFailed[out] ==> old(sinkFailed[out])) && sinkPend[out] == 0
+
+// ---------------------------------------------------------------------------------------------
+// command wiring (C16, C06, C15, C11): the Action closures hand the command exactly the loaded options - the opened
+// files in the order the command expects them (book first, log second) and every part of the configuration equal to
+// the corresponding part of the options, so the settings options.Load resolved are the ones the report runs with.
+// ---------------------------------------------------------------------------------------------
+type balance.balanceCmd(logStream, dbStream, bc) returns (err)
+  modifies *
+  modifies ghost(cbLen, cbErr, cbNode, cbStop, cbRet, cbLineNo, cbLine, cbHeader, cbElems, cbNElems, scRd, scPos, privLo, evOf, accKey, accP, accN, accH, bufSink, bufSticky, sinkFailed, sinkPend, prLen, prSink, prArg, prArgs, csvLen, csvW, csvN, csvRow, tnodes, tdepth, tmax, tmapOf, jlen, tvLen, tv, tseg, tvSet, procLen, procTime, procSrc, lastOpen, cfgRd)
+
+type balance.withFileReaders(fileNames, cb) returns (err)
+  modifies *
+  modifies ghost(cbLen, cbErr, cbNode, cbStop, cbRet, cbLineNo, cbLine, cbHeader, cbElems, cbNElems, scRd, scPos, privLo, evOf, accKey, accP, accN, accH, bufSink, bufSticky, sinkFailed, sinkPend, prLen, prSink, prArg, prArgs, csvLen, csvW, csvN, csvRow, tnodes, tdepth, tmax, tmapOf, jlen, tvLen, tv, tseg, tvSet, procLen, procTime, procSrc, lastOpen, cfgRd)
+
+func NewBalanceCommand$1$1$1 returns (err)
+  props C16 C06 C15 C11 C03 C08
+  requires @streams len(streams) == 2 && o != nil && balance != nil
+  dyncall 1 balance.balanceCmd
+  modifies *
+  modifies ghost(cbLen, cbErr, cbNode, cbStop, cbRet, cbLineNo, cbLine, cbHeader, cbElems, cbNElems, scRd, scPos, privLo, evOf, accKey, accP, accN, accH, bufSink, bufSticky, sinkFailed, sinkPend, prLen, prSink, prArg, prArgs, csvLen, csvW, csvN, csvRow, tnodes, tdepth, tmax, tmapOf, jlen, tvLen, tv, tseg, tvSet, procLen, procTime, procSrc, lastOpen, cfgRd)
+  ghost before dyncall 1 {
+    assert @streams [C16] #arg0 == streams[1] && #arg1 == streams[0]
+    assert @wiring [C16 C06 C15 C11 C03] #arg2.DateFormat == o.GlobalConfig.DateFormat && #arg2.ParserConfig == o.ParserConfig && #arg2.ResolverConfig == o.ResolverConfig && #arg2.ReporterConfig == o.ReporterConfig && #arg2.FilterConfig == o.FilterConfig
+  }
+
+func NewBalanceCommand$1$1 returns (err)
+  props C16 C08
+  requires @loaded o != nil && cu.WithFileReaders != nil
+  dyncall 1 balance.withFileReaders
+  modifies *
+  modifies ghost(cbLen, cbErr, cbNode, cbStop, cbRet, cbLineNo, cbLine, cbHeader, cbElems, cbNElems, scRd, scPos, privLo, evOf, accKey, accP, accN, accH, bufSink, bufSticky, sinkFailed, sinkPend, prLen, prSink, prArg, prArgs, csvLen, csvW, csvN, csvRow, tnodes, tdepth, tmax, tmapOf, jlen, tvLen, tv, tseg, tvSet, procLen, procTime, procSrc, lastOpen, cfgRd)
+  ghost before dyncall 1 {
+    assert @files [C16] len(#arg0) == 2 && #arg0[0] == o.GlobalConfig.DbFileName && #arg0[1] == o.GlobalConfig.LogFileName
+  }
+
 @*/
